@@ -31,13 +31,14 @@ CONSTANTS
   Diag = %s
 `
 
-// Which repairs the tree under test contains (Peer.tla: Fix* constants).
-// FixStall: btcd 7c169cbd.  The other two are recorded, unrepaired defects of
-// the current tree; VERIF_PEER_TREE_FIX=early,lateput (development switch)
-// checks a worktree that carries candidate patches for them.
+// Which repairs the tree under test contains (Peer.tla: Fix* constants): FixStall
+// btcd 7c169cbd, FixEarly c5164f45, FixLatePut e9426a69.  The specification of the
+// current tree therefore has none of the recorded defects any more: a
+// recurrence is not a behaviour of the spec and is reported as a VIOLATION.
+// VERIF_PEER_TREE_FIX=early,lateput only adds repairs (development switch).
 var (
-	treeFixEarly   = false
-	treeFixLatePut = false
+	treeFixEarly   = true
+	treeFixLatePut = true
 )
 
 func init() {
@@ -85,7 +86,7 @@ type mcRun struct {
 }
 
 var safetyInvs = []string{"TypeOK", "HandOff", "DoneAtMostOnce", "RejectDoneAtMostOnce", "NoEarlyCallback",
-	"HandlersNeedHandshake", "NegotiatedMin", "RefusedNeverConnects", "BadTrafficEndsReading", "FIFO", "FIFOPrefix", "QueuedBeforeDisconnectSignalled"}
+	"HandlersNeedHandshake", "NegotiatedMin", "RefusedNeverConnects", "BadTrafficEndsReading", "NonceRecordedBeforeWire", "FIFO", "FIFOPrefix", "QueuedBeforeDisconnectSignalled"}
 
 func tierFor(ctx *vrun.Ctx) tier {
 	if ctx.Thorough {
@@ -235,6 +236,7 @@ func scenarioFromState(st tla.State) (Scenario, error) {
 	sc.RClose = v.F("rclose").Bool()
 	sc.Net = v.F("net").Str()
 	sc.Loop = v.F("loop").Bool()
+	sc.Sib = v.F("sib").Bool()
 	for _, m := range v.F("script").Seq() {
 		sc.Script = append(sc.Script, RMsg{K: m.F("k").Str(), PV: m.F("pv").Int(), Self: m.F("self").Bool()})
 	}
